@@ -315,6 +315,15 @@ m('c18-swallow', 'C18', 'sound/static_sound/data/from_file.rs',
 
 # ---------------------------------------------------------------- C19
 m('c19-sub', 'C19', 'clock/time.rs', '\t\t\tticks: self.ticks.saturating_sub(ticks),', '\t\t\tticks: self.ticks - ticks,', 'B.C19.sub', 'tick subtraction wraps', reverse_of='ClockTime - u64')
+m('c19-frac-floor', 'C19', 'clock/time.rs', '\t\tlet fraction = ((self.fraction - ticks).fract() + 1.0) % 1.0;',
+  '\t\tlet difference = self.fraction - ticks;\n\t\tlet fraction = difference - difference.floor();', 'B.C19.frac',
+  'x - x.floor() is 1.0 for a tiny negative x (and the interval domain cannot bound it)')
+m('c19-frac-add', 'C19', 'clock/time.rs', '\t\tlet fraction = (self.fraction + ticks).fract();',
+  '\t\tlet fraction = (self.fraction + ticks) % 1.0 + 0.0;\n\t\tlet fraction = if ticks > 1.0 { fraction + f64::EPSILON } else { fraction };', 'B.C19.frac',
+  'the sum of a fraction and an epsilon can reach 1.0')
+m('ctrl-c19-frac', 'C19', 'clock/time.rs', '\t\tlet fraction = ((self.fraction - ticks).fract() + 1.0) % 1.0;',
+  '\t\tlet difference = self.fraction - ticks;\n\t\tlet wrapped = difference.fract() + 1.0;\n\t\tlet fraction = wrapped % 1.0;', 'NONE',
+  'the same expression through locals')
 m('c19-silence', 'C19', 'decibels.rs', '\t\tif self <= Self::SILENCE {\n\t\t\treturn 0.0;\n\t\t}\n', '', 'B.C19.db', '-60 dB is no longer exact silence')
 m('c19-center', 'C19', 'frame.rs', '\t\tif panning == Panning::CENTER {\n\t\t\treturn self;\n\t\t}\n', '', 'B.C19.pan', 'centre panning no longer returns the frame untouched')
 m('c19-cmp', 'C19', 'clock/time.rs', '\t\tif self.clock != other.clock {\n\t\t\treturn None;\n\t\t}\n', '', 'B.C19.cmp', 'times of different clocks compare as ordered')
